@@ -115,3 +115,44 @@ PROPS["C09"] = dict(
                  102: "the specification's reader on the redeemer bytes recovers the denoted value",
                  103: "datum / redeemer conversion panicked"},
 )
+
+LOOP_TB = TB_COMMON + [
+    "one pass of the resolver (apply_fees .. compile) is abstract: a function of the compiler state and the fee; the recorded pass traces of the real resolve_tx (through a recording wrapper that implements the public Compiler trait around tx3_cardano::Compiler) instantiate it",
+    "payload identity stands for the payload bytes and the hash; 'a payload determines the fee in its body' is a hypothesis of the fixed-point theorem, checked on every recorded pass (decoded body.fee = fee the pass was told)",
+]
+
+def _c05_classify(ids, text):
+    s = set(ids)
+    if s == {110}:
+        return "IGNORE"            # left through the round cap but still a fixed point
+    if s == {101, 110}:
+        return "exit_by_round_cap"
+    return None
+
+PROPS["C05"] = dict(
+    level="proof",
+    runner="C05",
+    model_files=["Base.v", "Loop.v"],
+    proof_files=["Loop_proofs.v"],
+    check_files=["C05_check.v"],
+    theorems=["C05_fee_formula", "C05_converged_fixed_point", "C05_passes_bounded", "C05_round_cap_refuted"],
+    partial=["convergence of the loop for the concrete CBOR size function is not a theorem (finding F05-1 is a counterexample); which inputs leave through the round cap is observed"],
+    trusted_base=LOOP_TB,
+    assumptions=["the pass function is deterministic in (compiler state, fee)"],
+    classify=_c05_classify,
+    check_names={101: "fee in the body of the returned payload = reported fee", 102: "reported fee = a*|payload| + b + margin",
+                 103: "number of passes within max(max_rounds,3)+2", 110: "the loop left through the round cap"},
+)
+
+PROPS["C20"] = dict(
+    level="proof",
+    runner="C20",
+    model_files=["Base.v", "Loop.v"],
+    proof_files=["Loop_proofs.v"],
+    check_files=["C05_check.v"],
+    theorems=["C20_history_independent"],
+    partial=["for templates that read the instance state (min_utxo) independence from the history is explored over generated histories, not proved: the loop is meant to wash the starting point out, which depends on convergence (C05)"],
+    trusted_base=LOOP_TB,
+    assumptions=["a template without min_utxo never reads Compiler.latest_tx_body (reduce_op is the only reader; checked by clause 1 on every such target)"],
+    check_names={101: "same payload, hash and fee (or same error variant) as on a fresh instance", 102: "a panic on the reused or the fresh instance"},
+)
